@@ -120,6 +120,22 @@ func (s *State) get(name string) string {
 		if hit {
 			t = s.vc.freshConst("hv_"+s.havocTag+"_"+name, s.vc.stateVarSort(name))
 			s.vc.havocFacts(name, s.parent.get(name), t)
+			if strings.HasPrefix(name, "E_") && !strings.HasSuffix(name, "_cnt") {
+				// ghost facts every effect record satisfies: the last-emission time lies between the old
+				// clock and the new clock iff the count grew; with an unchanged count the record is unchanged
+				s.cache[name] = t
+				i := strings.LastIndex(name, "_")
+				cnt := name[:i] + "_cnt"
+				if _, ok := s.vc.svSorts[cnt]; ok {
+					cn, co := s.get(cnt), s.parent.get(cnt)
+					s.vc.assume(implies(eq(cn, co), eq(t, s.parent.get(name))))
+					if strings.HasSuffix(name, "_t") {
+						s.vc.assume(fmt.Sprintf("(<= %s %s)", t, s.get("CLK")))
+						s.vc.assume(fmt.Sprintf("(<= %s %s)", s.parent.get(name), t))
+						s.vc.assume(implies(fmt.Sprintf("(> %s %s)", cn, co), fmt.Sprintf("(> %s %s)", t, s.parent.get("CLK"))))
+					}
+				}
+			}
 		} else {
 			t = s.parent.get(name)
 		}
@@ -152,6 +168,11 @@ func (vc *VC) entryConst(name string) string {
 	vc.declConst(c, vc.stateVarSort(name))
 	if name == "NEXT" {
 		vc.assume("(< 0 NEXT@0)")
+	}
+	if strings.HasPrefix(name, "E_") && strings.HasSuffix(name, "_t") {
+		vc.simpleVar("CLK", "Int")
+		vc.declConst("CLK@0", "Int")
+		vc.assume(fmt.Sprintf("(<= %s CLK@0)", c))
 	}
 	return c
 }
